@@ -99,13 +99,14 @@ def make_pair_item(method, bound):
 
 FAST = (
     "all unordered pairs (both directions evaluated) of the enumerated circuits of <= 2 ops over ALPHA on (2e,2p,1c) "
-    "[quick: 13(+1)-op alphabet, 183 (211) circuits; thorough: 21(+1)-op alphabet, 463 (507) circuits] + near-miss pairs (role swap, gate change, "
+    "[quick: 14(+1)-op alphabet, 211 (241) circuits; thorough: 22(+1)-op alphabet, 507 (553) circuits] + near-miss pairs (role swap, gate change, wrapper reversal / wrapper gate change, "
     "register move, drop, duplicate, adjacent swap, renaming, wrapping, identity padding, different register counts) of "
     "seeded random circuits of <= 6 ops on <= (3e,2p,2c) [quick 300 bases, thorough 4000]"
 )
 SLOW = (
     "all unordered pairs of circuits of <= 1 op and a seeded sample of pairs of <= 2 ops over an 8-op alphabet on (1e,1p,1c) "
-    "and (2e,1p,0c) [quick 30 pairs, thorough 3000], near-miss pairs of 2-op circuits; the networkx optimisers run with "
+    "and (2e,1p,0c) [quick 30 pairs, thorough 3000], the 166 fixed near-miss pairs ged_targeted() (role swap / class change / "
+    "gate change of every 'one-qubit op + two-qubit op' circuit), seeded near-miss pairs of 2-op circuits; the networkx optimisers run with "
     "graphiq's own time-outs"
 )
 make_pair_item("direct", FAST)
@@ -404,7 +405,7 @@ def alpha_fast(thorough, iso):
     of the same type are offered to the exact methods only (iso=False)"""
     e0, e1, p0, p1 = ["e", 0], ["e", 1], ["p", 0], ["p", 1]
     A = [
-        ["g", "H", e0], ["g", "H", e1], ["g", "H", p0], ["g", "P", e0], ["g", "I", e1], ["w", ["H", "P"], e1],
+        ["g", "H", e0], ["g", "H", e1], ["g", "H", p0], ["g", "P", e0], ["g", "I", e1], ["w", ["H", "P"], e1], ["w", ["P", "H"], e1],
         ["mz", e0, 0], ["cx", e0, e1], ["cx", e1, e0], ["cx", e0, p0], ["cx", e1, p1], ["cz", e0, e1], ["mcr", e0, p0, 0],
     ]
     if thorough:
@@ -433,9 +434,9 @@ def random_base(rng, iso):
         q = Q[rng.integers(len(Q))]
         if x < 0.4 or len(Q) < 2:
             ops.append(["g", ["H", "P", "PD", "X", "Y", "Z", "I"][rng.integers(7)], q])
-        elif x < 0.5:
-            ops.append(["w", [["H", "P"], ["P", "H"], ["X", "H", "I"], ["I"]][rng.integers(4)], q])
-        elif x < 0.58 and n_meas < 3:
+        elif x < 0.55:
+            ops.append(["w", [["H", "P"], ["P", "H"], ["X", "H", "I"], ["I"], ["H", "P", "X"]][rng.integers(5)], q])
+        elif x < 0.62 and n_meas < 3:
             ops.append(["mz", q, int(rng.integers(regs[2]))])
             n_meas += 1
         else:
@@ -475,6 +476,12 @@ def variants(rng, base, iso):
         m = regs[0] if t == "e" else regs[1]
         if m > 1:
             out.append([regs, ops[:i] + [["g", d[1], [t, (d[2][1] + 1) % m]]] + ops[i + 1 :]])
+    wr = [i for i, d in enumerate(ops) if d[0] == "w" and len(d[1]) > 1]
+    if wr:
+        i = wr[rng.integers(len(wr))]
+        d = ops[i]
+        out.append([regs, ops[:i] + [["w", d[1][::-1], d[2]]] + ops[i + 1 :]])
+        out.append([regs, ops[:i] + [["w", d[1][:-1] + [{"H": "P", "P": "X", "X": "H", "I": "Z"}.get(d[1][-1], "H")], d[2]]] + ops[i + 1 :]])
     if n:
         i = int(rng.integers(n))
         out.append([regs, ops[:i] + ops[i + 1 :]])
@@ -500,6 +507,26 @@ SMALL_ALPHA = {
     (2, 1, 0): [["g", "H", ["e", 0]], ["g", "H", ["e", 1]], ["g", "X", ["p", 0]], ["w", ["P", "H"], ["e", 1]], ["cx", ["e", 0], ["e", 1]],
                 ["cx", ["e", 1], ["e", 0]], ["cx", ["e", 0], ["p", 0]], ["cz", ["e", 0], ["e", 1]]],
 }
+
+
+def ged_targeted():
+    """every 2-op circuit 'one one-qubit op + one two-qubit op' (both orders) over SMALL_ALPHA against its role-swapped,
+    class-changed and gate-changed variant (fixed list)"""
+    out = []
+    for rg, A in SMALL_ALPHA.items():
+        one = [d for d in A if d[0] in ("g", "w", "mz")]
+        two = [d for d in A if d[0] not in ("g", "w", "mz")]
+        for a in one:
+            for b in two:
+                for ops in ([a, b], [b, a]):
+                    i, j = ops.index(b), ops.index(a)
+                    sw = [b[0], b[2], b[1]] + b[3:]
+                    alt = {"cx": "cz", "cz": "cx", "mcr": "ccx"}[b[0]]
+                    vs = [ops[:i] + [sw] + ops[i + 1 :], ops[:i] + [[alt] + b[1:]] + ops[i + 1 :]]
+                    if a[0] == "g":
+                        vs.append(ops[:j] + [["g", {"H": "P", "P": "H", "X": "Z", "I": "H"}[a[1]], a[2]]] + ops[j + 1 :])
+                    out += [{"ra": list(rg), "a": ops, "rb": list(rg), "b": v} for v in vs]
+    return out
 
 
 def big_circuit(rng, n_ops):
@@ -569,8 +596,8 @@ def run(tier, seed):
     for c in small_circs:
         if len(c[1]) == 2 and r2.random() < (1.0 if thorough else 0.04):
             small_near += [{"ra": c[0], "a": c[1], "rb": v[0], "b": v[1]} for v in variants(r2, c, False)[:9]]
-    slow = small_pairs_1 + [small_pairs_2[i] for i in idx[:n_slow]] + small_near
-    S.map("GED_approximate.sound_symmetric", small_pairs_1 + [small_pairs_2[i] for i in idx[:n_apx]] + small_near, nontrivial=nontrivial_pair)
+    slow = small_pairs_1 + ged_targeted() + [small_pairs_2[i] for i in idx[:n_slow]] + small_near
+    S.map("GED_approximate.sound_symmetric", small_pairs_1 + ged_targeted() + [small_pairs_2[i] for i in idx[:n_apx]] + small_near, nontrivial=nontrivial_pair)
     S.map("GED_full.sound_symmetric", slow, nontrivial=nontrivial_pair, chunksize=2)
     big = []
     for j in range(6 if thorough else 3):
